@@ -203,7 +203,28 @@ func buildStream(p *kernel.Plan, stubMasks bool) (stream []byte, frames []sframe
 				}
 				pay = append([]byte{byte(f.closeCode >> 8), byte(f.closeCode)}, r...)
 			default:
-				pay = []byte{byte(f.closeCode >> 8), byte(f.closeCode), 'a', 0xff, 0xfe, 'b'}
+				// an invalid UTF-8 reason: short, long and all invalid bytes, or valid
+				// text ending in a multi-byte rune cut short
+				r := pay
+				if len(r) > 123 {
+					r = r[:123]
+				}
+				var bad []byte
+				switch uint64(o.N[iSeed]) % 3 {
+				case 0:
+					bad = []byte{'a', 0xff, 0xfe, 'b'}
+				case 1:
+					bad = bytes.Repeat([]byte{0xff}, 1+len(r))
+					if len(bad) > 123 {
+						bad = bad[:123]
+					}
+				default:
+					if len(r) > 121 {
+						r = r[:121]
+					}
+					bad = append(append([]byte{}, r...), 0xe2, 0x82) // a euro sign without its last byte
+				}
+				pay = append([]byte{byte(f.closeCode >> 8), byte(f.closeCode)}, bad...)
 			}
 			if o.N[iLen] > 125 { // oversized control frame requested
 				pay = append(pay, bytes.Repeat([]byte{'x'}, int(o.N[iLen])-len(pay))...)
